@@ -958,7 +958,9 @@ func c18R5(c *Ctx) {
 		if f == nil || f.Name() != fname {
 			return false
 		}
-		return strings.HasPrefix(kit.PathOf(base), pname)
+		// perProcessor is the first, ceiling the second parameter of ResolvePolicy (canonical path names arg0/arg1)
+		want := map[string]string{"perProcessor": "arg0", "ceiling": "arg1"}[pname]
+		return strings.HasPrefix(kit.PathOf(base), want)
 	}
 	// enabled returns: returns whose first result is not DenyAll()
 	var enabledRets []ssa.Instruction
@@ -1063,7 +1065,7 @@ func c18R5(c *Ctx) {
 				continue
 			}
 			f := kit.FieldOf(s2.Addr)
-			if f == nil || f.Name() != "Allowlist" || !strings.HasPrefix(kit.PathOf(s2.Addr), "eff") {
+			if f == nil || f.Name() != "Allowlist" || strings.HasPrefix(kit.PathOf(s2.Addr), "arg") {
 				continue
 			}
 			switch {
